@@ -176,6 +176,11 @@ def r07_1(ctx, g):
         raise AnalysisError("R07.1", rg.where(call[0]), "the reader hands the link columns to add_edge one by one (not as `*columns, tags`): their provenance is not traced")
     if len(call) == 1 and len(call[0].args) == 2 and isinstance(call[0].args[0], ast.Starred) and isinstance(call[0].args[0].value, ast.Name):
         ev_ = call[0].args[0].value.id
+        # a record built from the columns (`link = Link(*cols)`; a namedtuple keeps the order) stands for the columns
+        for _ in range(2):
+            wrap = [st.value for st in walk_own(rg.node) if isinstance(st, ast.Assign) and norm(st.targets[0]) == ev_ and isinstance(st.value, ast.Call) and len(st.value.args) == 1 and isinstance(st.value.args[0], ast.Starred) and isinstance(st.value.args[0].value, ast.Name) and not st.value.keywords]
+            if len(wrap) == 1 and isinstance(rg.module.consts.get(norm(wrap[0].func)), ast.Call) and norm(rg.module.consts[norm(wrap[0].func)].func).endswith("namedtuple"):
+                ev_ = wrap[0].args[0].value.id
         sl = [st for st in walk_own(rg.node) if isinstance(st, ast.Assign) and norm(st.targets[0]) == ev_ and isinstance(st.value, ast.Subscript) and isinstance(st.value.slice, ast.Slice)]
         a1 = call[0].args[1]
         if isinstance(a1, ast.BoolOp) and isinstance(a1.op, ast.Or) and isinstance(a1.values[0], ast.Name):
@@ -189,6 +194,8 @@ def r07_1(ctx, g):
             # the base is the tab-split L line
             bd = [st for st in walk_own(rg.node) if isinstance(st, ast.Assign) and norm(st.targets[0]) == base and ".split('\\t')" in norm(st.value)]
             ok_r = ok_r and bool(bd)
+    if not ok_r and not (len(sl) == 1 and tg):
+        raise AnalysisError("R07.1", rg.where(call[0]), "cannot trace the columns handed to add_edge back to a slice of the split L line")
     ctx.check(ok_r, "R07.1", rg.where(), "the reader passes (node1, orientation1, node2, orientation2, overlap) of the L line, in file order, to add_edge", key_of(rg, "reader-args"))
 
 
@@ -203,15 +210,21 @@ def stmt_of(root, target):
 def r07_2(ctx, g):
     wf = g.write_gfa
     body = wf.node.body
-    # the S pass and the L pass: top-level loops over the same node list
+    # the S pass and the L pass: loops over the same node list in one block (the function body, or a `with handle:` in it)
+    for blk_ in [body] + [w_.body for w_ in walk_stmts(body) if isinstance(w_, (ast.With, ast.Try))]:
+        if any(isinstance(l, ast.For) and any(isinstance(c, ast.Call) and isinstance(c.func, ast.Attribute) and c.func.attr == "to_gfa_line" for c in ast.walk(l)) for l in blk_):
+            body = blk_
+            break
     s_loops = [l for l in body if isinstance(l, ast.For) and any(isinstance(c, ast.Call) and isinstance(c.func, ast.Attribute) and c.func.attr == "to_gfa_line" for c in ast.walk(l))]
     l_loops = [l for l in body if isinstance(l, ast.For) and any(isinstance(c, ast.Constant) and c.value == "L" for c in ast.walk(l))]
+    if not s_loops or not l_loops:
+        raise AnalysisError("R07.2", wf.where(), f"cannot find the S pass ({len(s_loops)}) and the L pass ({len(l_loops)}) of the writer as loops of one block")
     ok = len(s_loops) == 1 and len(l_loops) == 1 and body.index(s_loops[0]) < body.index(l_loops[0]) and norm(s_loops[0].iter) == norm(l_loops[0].iter) and not any(isinstance(c, ast.Constant) and c.value == "L" for c in ast.walk(s_loops[0]))
     ctx.check(ok, "R07.2", wf.where(), "write_gfa writes the S lines of all nodes in one pass and only then the L lines, over the same (ordered) node list", key_of(wf, f"S-before-L:{len(s_loops)}:{len(l_loops)}"))
     if s_loops:
         it = norm(s_loops[0].iter)
         # ordered list when order_bo
-        d = [st for st in walk_stmts(body) if isinstance(st, ast.Assign) and norm(st.targets[0]) == it]
+        d = [st for st in walk_stmts(wf.node.body) if isinstance(st, ast.Assign) and norm(st.targets[0]) == it]
         ok2 = any("sort_bo_no" in norm(st.value) and any(canon_test(t, pol) == ("order_bo", True) for t, pol in guards_of(wf.node, st)) for st in d)
         ctx.check(ok2, "R07.2", wf.where(), "with order_bo the node list written is the (BO, NO)-sorted one", key_of(wf, "ordered-list"))
         # every S line: one write of to_gfa_line + newline
@@ -298,6 +311,9 @@ def r07_3(ctx, g):
     repo = ctx.repo
     f = repo.func("gaftools.gfa", "GFA.sort_bo_no", "R07.3")
     ctx.analysed_func(f)
+    from ..core import tail_inlined
+
+    f = tail_inlined(repo, f, keep=lambda c: not c.name.startswith("_") or c.name.startswith("__"))  # a private bucketing helper is read in place
     sorts = [c for c in walk_own(f.node) if isinstance(c, ast.Call) and isinstance(c.func, ast.Name) and c.func.id == "sorted"]
     ctx.require_count("R07.3", len(sorts), 2, f.where(), "sorted() calls (BO buckets, NO inside a bucket)")
     for c in sorts:
